@@ -150,8 +150,9 @@ def rule_A(run, prog, cls):
 
 
 def rule_B(run, prog, cls):
+    from .. import pat
     rid = "C08-B"
-    for mname, slot in (("_elemental_step_TimeIndep", "1"), ("_elemental_step_TimeDependent", "one_step_time.length - 1"),
+    for mname, slot in (("_elemental_step_TimeIndep", "1"), ("_elemental_step_TimeDependent", "$AX.length - 1"),
                         ("_all_steps_time_dep", None)):
         f = cls.methods[mname]
         construct = "EvolutionSuperOperator.%s" % mname
@@ -159,51 +160,59 @@ def rule_B(run, prog, cls):
         if len(loops) != 1 or not isinstance(loops[0].body[0], ast.For):
             raise AnalysisError("%s: basis-element double loop not found" % construct)
         outer, inner = loops[0], loops[0].body[0]
-        n_, m_ = outer.target.id, inner.target.id
-        full = norm(outer.iter) == "range(dim)" and norm(inner.iter) == "range(dim)"
+        env = {"N": outer.target.id, "M": inner.target.id}
+        top = [norm(s) for s in f.node.body]
+        # both loops run over the full dimension
+        kd, e0 = pat.find(top, "$DIM = self.ham.dim", {})
+        if kd is None:
+            kd, e0 = pat.find(top, "$DIM = self.dim", {})
+        full = kd is not None and norm(outer.iter) == "range(%s)" % e0["DIM"] and norm(inner.iter) == "range(%s)" % e0["DIM"]
         body = [norm(s) for s in inner.body]
-        set1 = "rhonm0.data[%s, %s] = 1.0" % (n_, m_)
-        set0 = "rhonm0.data[%s, %s] = 0.0" % (n_, m_)
-        prop = "rhot = prop.propagate(rhonm0)"
-        ok = full and set1 in body and set0 in body and prop in body and \
-            body.index(set1) < body.index(prop) < body.index(set0) and body.count(set1) == 1
-        run.obligation(rid, construct, ok, key="set-propagate-reset",
+        e, pos = pat.seq(body, ["$R.data[$N, $M] = 1.0", "$RT = $P.propagate($R)", "$R.data[$N, $M] = 0.0"], env)
+        once = e is not None and len(pat.find_all(body, "$R.data[$N, $M] = 1.0", e)) == 1
+        run.obligation(rid, construct, bool(full and once), key="set-propagate-reset",
                        message="every basis element E_nm must be set to 1, propagated and reset to 0 "
-                               "inside a full double loop (body: %s)" % body, loc=f.loc(outer),
-                       sample={"routine": mname, "body": body})
-        # no exit between set and reset
+                               "inside a full double loop (%s; body: %s)" % (pos if e is None else "ok", body),
+                       loc=f.loc(outer), sample={"routine": mname, "body": body})
         esc = [x for x in ast.walk(inner) if isinstance(x, (ast.Break, ast.Continue, ast.Return))]
         run.obligation(rid, construct, not esc, key="no-escape",
                        message="loop exit between setting and resetting a basis element", loc=f.loc(inner))
-        # where the result goes
-        stores = [s for s in inner.body if isinstance(s, ast.Assign) and isinstance(s.targets[0], ast.Subscript)
-                  and norm(s.targets[0].value) in ("Ut1", "self.data")]
-        ok = len(stores) == 1
-        if ok:
-            tgt = norm(stores[0].targets[0])
-            val = norm(stores[0].value)
-            if slot is not None:
-                ok = tgt == "Ut1[:, :, %s, %s]" % (n_, m_) and val == "rhot.data[%s, :, :]" % slot
-            else:
-                ok = tgt == "self.data[:, :, :, %s, %s]" % (n_, m_) and val == "rhot.data[:, :, :]"
-        run.obligation(rid, construct, ok, key="column",
+        e = e or env
+        ok = False
+        store = None
+        if slot is not None:
+            # the one-step axis name, if the slot refers to it
+            ka, ea = pat.find(top, "$AX = TimeAxis(t0, self.dense_time.length, self.dense_time.step)", e)
+            e2 = ea if ka is not None else e
+            k, e3 = pat.find(body, "$U[:, :, $N, $M] = $RT.data[%s, :, :]" % slot, e2)
+            ok = k is not None and pos is not None and pos[1] < k < pos[2] if e is not env else False
+            store = body[k] if k is not None else None
+            if ok:
+                # U is a fresh zero tensor returned by the routine
+                ok = pat.find(top, "$U = numpy.zeros(($DIM, $DIM, $DIM, $DIM), dtype=COMPLEX)", dict(e3, **e0))[0] is not None \
+                    and pat.find(top, "return $U", e3)[0] is not None
+        else:
+            k, e3 = pat.find(body, "self.data[:, :, :, $N, $M] = $RT.data[:, :, :]", e)
+            ok = k is not None and e is not env and pos[1] < k < pos[2]
+            store = body[k] if k is not None else None
+        run.obligation(rid, construct, bool(ok), key="column",
                        message="the propagated basis element must fill U[.., :, :, n, m] from the last "
-                               "stored time of the one-step propagation", loc=f.loc(inner),
-                       sample={"store": norm(stores[0]) if stores else None})
-        # rhonm0 is a fresh zero matrix
-        init = [s for s in f.node.body if isinstance(s, ast.Assign) and norm(s.targets[0]) == "rhonm0"]
-        ok = len(init) == 1 and norm(init[0].value) == "ReducedDensityMatrix(dim=dim)"
-        run.obligation(rid, construct, ok, key="fresh-basis-matrix",
+                               "stored time of the one-step propagation, between propagate and reset", loc=f.loc(inner),
+                       sample={"store": store})
+        k, _ = pat.find(top, "$R = ReducedDensityMatrix(dim=$DIM)", dict(e, **e0)) if "R" in e else (None, None)
+        run.obligation(rid, construct, k is not None, key="fresh-basis-matrix",
                        message="the basis-element matrix must start as a fresh zero matrix", loc=f.loc())
-    # the one-step time axis of the time-independent step has two points with the dense step
     f = cls.methods["_elemental_step_TimeIndep"]
-    ax = [s for s in f.node.body if isinstance(s, ast.Assign) and norm(s.targets[0]) == "one_step_time"]
-    ok = len(ax) == 1 and norm(ax[0].value) == "TimeAxis(t0, 2, self.dense_time.step)"
-    run.obligation(rid, "EvolutionSuperOperator._elemental_step_TimeIndep", ok, key="one-step-axis",
-                   message="elemental step must propagate over exactly one dense step", loc=f.loc())
+    top = [norm(s) for s in f.node.body]
+    e, pos = pat.seq(top, ["$AX = TimeAxis(t0, 2, self.dense_time.step)",
+                           "$P = ReducedDensityMatrixPropagator($AX, self.ham, RTensor=self.relt, PDeph=self.pdeph)"])
+    run.obligation(rid, "EvolutionSuperOperator._elemental_step_TimeIndep", e is not None, key="one-step-axis",
+                   message="elemental step must propagate, with the system's Hamiltonian, tensor and dephasing, "
+                           "over exactly one dense step (a two-point time axis)", loc=f.loc())
     g = cls.methods["set_dense_dt"]
+    prm = [a.arg for a in g.node.args.args if a.arg != "self"]
     st = [norm(s) for s in g.node.body if isinstance(s, ast.Assign)]
-    ok = st == ["self.dense_time = TimeAxis(0.0, Nt + 1, self.time.step / Nt)"]
+    ok = len(prm) == 1 and st == ["self.dense_time = TimeAxis(0.0, %s + 1, self.time.step / %s)" % (prm[0], prm[0])]
     run.obligation(rid, "EvolutionSuperOperator.set_dense_dt", ok, key="dense-axis",
                    message="dense axis must have Nt+1 points of step time.step/Nt (Nt dense steps = one "
                            "step of the superoperator)", loc=g.loc(), sample={"statements": st})
@@ -214,38 +223,44 @@ def _tensordots(node):
 
 
 def rule_C(run, prog, cls):
+    from .. import pat
     rid = "C08-C"
     # powers within the first interval
     f = cls.methods["_one_step_with_dense_TimeIndep"]
+    top = [norm(s_) for s_ in f.node.body if not (isinstance(s_, ast.Expr) and isinstance(s_.value, ast.Constant))]
+    prm = [a_.arg for a_ in f.node.args.args if a_.arg != "self"]
+    e, pos = pat.seq(top, ["$U1 = self._elemental_step_TimeIndep(%s)" % ", ".join(p_ for p_ in prm if p_ != "Ndense"),
+                           "$UD[:, :, :, :] = $U1[:, :, :, :]"])
     loops = [n for n in f.node.body if isinstance(n, ast.For)]
-    ok = len(loops) == 1 and norm(loops[0].iter) == "range(2, self.dense_time.length)"
-    td = _tensordots(loops[0]) if loops else []
+    ok = e is not None and len(loops) == 1 and norm(loops[0].iter) == "range(2, self.dense_time.length)"
     comp = False
-    detail = ""
-    if len(td) == 1:
-        comp, detail = _compose_ok(prog, f, td[0], "Ut1", "Udt")
-    stmt_ok = loops and [norm(s) for s in loops[0].body] and isinstance(loops[0].body[0], ast.Assign) \
-        and norm(loops[0].body[0].targets[0]) == "Udt"
-    init = [norm(s) for s in f.node.body]
-    init_ok = "Udt[:, :, :, :] = Ut1[:, :, :, :]" in init
+    detail = "" if e is not None else str(pos)
+    td = _tensordots(loops[0]) if loops else []
+    if ok and len(td) == 1:
+        comp, detail = _compose_ok(prog, f, td[0], e["U1"], e["UD"])
+        st0 = loops[0].body[0]
+        ok = len(loops[0].body) == 1 and isinstance(st0, ast.Assign) and norm(st0.targets[0]) == e["UD"] and \
+            pat.find(top, "return $UD", e)[0] is not None and \
+            pat.find(top, "$UD = numpy.zeros($U1.shape, dtype=COMPLEX)", e)[0] is not None
     run.obligation(rid, "EvolutionSuperOperator._one_step_with_dense_TimeIndep",
-                   bool(ok and comp and stmt_ok and init_ok), key="dense-powers",
-                   message="first interval must be Ut1 composed (dense length - 1) times: start from a "
-                           "copy of Ut1, loop range(2, dense length), Udt = Ut1 . Udt (%s)" % detail,
+                   bool(ok and comp), key="dense-powers",
+                   message="first interval must be the elemental step composed (dense length - 1) times: start from a "
+                           "copy of it, loop range(2, dense length), U = step . U, return U (%s)" % detail,
                    loc=f.loc(), sample={"loop": norm(loops[0].iter) if loops else None,
                                         "compose": norm(td[0]) if td else None})
     # remaining intervals
     f = cls.methods["_calculate_remainig_using_first_interval"]
+    top = [norm(s_) for s_ in f.node.body if not (isinstance(s_, ast.Expr) and isinstance(s_.value, ast.Constant))]
     loops = [n for n in f.node.body if isinstance(n, ast.For)]
-    ok = len(loops) == 1 and norm(loops[0].iter) == "range(2, Nt)"
-    first = [s for s in f.node.body if isinstance(s, ast.Assign) and norm(s.targets[0]) == "Udt"]
-    ok = ok and len(first) == 1 and norm(first[0].value) == "self.data[1, :, :, :, :]"
+    k, e = pat.find(top, "$UD = self.data[1, :, :, :, :]", {})
+    prm = [a_.arg for a_ in f.node.args.args if a_.arg != "self"]
+    ok = k is not None and len(loops) == 1 and len(prm) == 1 and norm(loops[0].iter) == "range(2, %s)" % prm[0]
     td = _tensordots(loops[0]) if loops else []
     comp, detail = (False, "")
     v = loops[0].target.id if loops else "ti"
-    if len(td) == 1:
-        comp, detail = _compose_ok(prog, f, td[0], "Udt", "self.data[%s - 1, :, :, :, :]" % v)
-    tgt_ok = loops and isinstance(loops[0].body[0], ast.Assign) and \
+    if ok and len(td) == 1:
+        comp, detail = _compose_ok(prog, f, td[0], e["UD"], "self.data[%s - 1, :, :, :, :]" % v)
+    tgt_ok = loops and len(loops[0].body) == 1 and isinstance(loops[0].body[0], ast.Assign) and \
         norm(loops[0].body[0].targets[0]) == "self.data[%s, :, :, :, :]" % v
     run.obligation(rid, "EvolutionSuperOperator._calculate_remainig_using_first_interval",
                    bool(ok and comp and tgt_ok), key="recurrence",
